@@ -27,11 +27,13 @@ CHECKS = {
     'C04': ('TLC: reference-count model of snapshots and loaded file segments (C04_NoUseAfterClose, C04_ReaderFrozen). Code: several readers of '
             'different ages are held open while batches, merges, persists, removals and Close run; after EVERY released gate each held reader is '
             're-observed through the public API and TLC requires the observation to be identical to the one at acquisition; handle closes are events '
-            'and TLC requires that no handle listed by the root or by a held reader is closed.', '6 C04'),
+            'and TLC requires that no handle listed by the root or by a held reader is closed; the same under injected directory failures (family faults) and in free-running executions where every reader '
+            'is searched by three goroutines at once; sub-check: 6000 generated searches (Search.tla) on 150 held readers, each executed twice on the same reader and compared with each other and with Search!Eval.', '6 C04'),
     'C05': ('TLC: C05_RealTime, C05_ReturnedApplied, C01_RootIsAbstract with 2 clients and the prepare/introduce split explicit (stale optimistic '
             'obsoletes). Code: 2..8 client goroutines over 2 ids under seeded schedules plus delay-bounded exhaustive enumeration of gate orders for the '
             'conflicting-update scenarios; the introducer hook gives the linearization order; TLC checks real-time order from Invoke/Return events, '
-            'return-after-introduction, epoch monotonicity, and reader content = Abs(applied prefix).', '6 C05'),
+            'return-after-introduction, epoch monotonicity, and reader content = Abs(applied prefix); in free-running executions (real parallelism) readers obtained concurrently with the batches must show the abstract '
+            'index after k batches with (returned before Writer.Reader() was called) <= k <= (introduced when the observation is logged).', '6 C05'),
     'C06': ('TLC: action property C06_Invisible (merge / in-memory merge / persist swap never change Vis(root)) with deletes landing in every phase of a '
             'merge, incl. whole-segment obsoletion and skipped merges. Code: eager merge options force file and in-memory merges on tiny indexes, '
             'deletes are concentrated on the segments under merge, and TLC compares Vis(root) before and after every IntroMerge / IntroPersist event '
@@ -39,7 +41,7 @@ CHECKS = {
     'C11': ('TLC: C11_Retained, C11_AtLeastN, C11_RootFiles, C11_RemoveSafe, C11_HandlesBalanced, C11_Lock over KeepN in 1..3 with readers holding '
             'superseded segments. Code: every Persist/Load/Remove/closer call goes through the logging directory wrapper; TLC recomputes the deletion '
             'policy from the logged commits (PolicyCommit) and checks at every event: retained snapshots loadable, no removal of a needed or in-use file, '
-            'handles closed exactly once and none left after Close, lock released (the directory is reopened immediately), second writer refused (two attempts). In addition Apalache discharges an '
+            'handles closed exactly once and none left after Close (also for the offline writer: Offline.tla / OfflineTrace.tla, with injected failures), lock released (the directory is reopened immediately), second writer refused (two attempts). In addition Apalache discharges an '
             'inductive invariant of the policy core (spec/Policy.tla: Init => IndInv, IndInv and Next => IndInv\', IndInv => C11_Retained and C11_AtLeastN), i.e. retention safety for any number '
             'of commits, clean-ups and failed removals.', '6 C11'),
     'C14': ('TLC: fault actions on the persister and merger directory steps (PFail/MFail) with C14_Surfaced, C14_AckCovers and C01/C02/C03/C04 re-checked. '
@@ -51,7 +53,7 @@ CHECKS = {
             'closing ~> closed under weak fairness in the thorough tier. Code: Close is called by a gated goroutine as soon as callers returned, at '
             'schedule-chosen points in the middle of merges, persists and clean-ups; synctest makes a hang exact (all goroutines durably blocked => '
             'Stuck event => C15_stuck), with gates at the start of persist-swap and merge introductions and with the persister pacing itself against the merger; a free-running family (no gates, '
-            'real parallelism) is validated by the same specification; afterwards the directory is reopened for real and must contain every acknowledged batch. The data-race clause '
+            'real parallelism, readers searched by several goroutines at once, reader churn while roots are replaced) is validated by the same specification; a real-time watchdog turns a livelock (spinning goroutine, invisible to synctest) into a verdict; afterwards the directory is reopened for real and must contain every acknowledged batch. The data-race clause '
             'of the property is NOT decided by this technique (see DESIGN 6 C15).', '6 C15'),
 }
 
